@@ -84,6 +84,9 @@ def _work(args):
                     "recorded_abort": [log.abort_member, log.abort_line]}
     aborted_dir = pharness.run_dirs(cp.config.archive_path, "g")
     aborted_tree = pharness.tree_hashes(os.path.join(cp.config.archive_path, "g"))
+    # the further run is a run of another group, or of the SAME named-paths name (its csvpaths replaced by ones that do not abort)
+    same_name = idx % 2 == 1
+    fname = "g" if same_name else "g2"
     # ---- the follow-up run on the same instance
     r2 = grouprun.Recorder()
     log2 = archiverun.CallLog(r2)
@@ -93,7 +96,9 @@ def _work(args):
             r2.install()
             log2.install()
             try:
-                pharness.run_method(cp, "collect_paths", "g2", "data")
+                if same_name:
+                    cp.paths_manager.add_named_paths(name="g", paths=good)
+                pharness.run_method(cp, "collect_paths", fname, "data")
             except Exception as e:
                 raised2 = f"{type(e).__name__}: {e}"[:300]
     finally:
@@ -101,18 +106,27 @@ def _work(args):
         r2.uninstall()
     okcase = {"prog": {"scan": lang.scan("all"), "comps": [lang.fn("yes")], "initVars": []}, "cfg": members[0]["cfg"]}
     try:
-        rec2 = archiverun.project_run(cp, "g2", good, [okcase], records, r2, log2.calls, "collect_paths", raised2, ["ok1"])
+        rec2 = archiverun.project_run(cp, fname, good, [okcase], records, r2, log2.calls, "collect_paths", raised2, ["ok1"])
     except OutOfModel:
         return {"oom": True}
     rec2["tid"] = idx * 2 + 1
     rec2["_info"] = {"method": "collect_paths (follow-up run after the abort)", "texts": good, "records": records, "raised": raised2}
     follow_bad = None
-    if pharness.tree_hashes(os.path.join(cp.config.archive_path, "g")) != aborted_tree:
-        follow_bad = "the follow-up run modified the aborted run's files"
-    if pharness.run_dirs(cp.config.archive_path, "g") != aborted_dir:
-        follow_bad = "the follow-up run created a directory under the aborted group"
-    if len(pharness.run_dirs(cp.config.archive_path, "g2")) != 1:
-        follow_bad = "the follow-up run did not get its own run directory under its own group"
+    now_tree = pharness.tree_hashes(os.path.join(cp.config.archive_path, "g"))
+    now_dirs = pharness.run_dirs(cp.config.archive_path, "g")
+    if same_name:
+        # the aborted run's directory keeps every file as it was; the further run has a directory of its own next to it
+        if {k: v for k, v in now_tree.items() if k.split(os.sep)[0] in aborted_dir} != aborted_tree:
+            follow_bad = "the follow-up run of the same named-paths name modified the aborted run's files"
+        if len(now_dirs) != len(aborted_dir) + 1 or any(d not in now_dirs for d in aborted_dir):
+            follow_bad = "the follow-up run of the same named-paths name did not get a run directory of its own"
+    else:
+        if now_tree != aborted_tree:
+            follow_bad = "the follow-up run modified the aborted run's files"
+        if now_dirs != aborted_dir:
+            follow_bad = "the follow-up run created a directory under the aborted group"
+        if len(pharness.run_dirs(cp.config.archive_path, "g2")) != 1:
+            follow_bad = "the follow-up run did not get its own run directory under its own group"
     return {"recs": [rec, rec2], "follow_bad": follow_bad}
 
 
